@@ -47,7 +47,7 @@ def main(argv):
         if not skip_tests:
             rc, out = sh("/venv/bin/python -m pytest -q -p no:cacheprovider --timeout=900 --continue-on-collection-errors 2>&1 | tail -1", cwd=scratch, env=env)
             res["tests"] = out.strip()
-            sh("git checkout -- examples", cwd=scratch)
+            sh("git checkout -- examples/calculator/parser.py examples/calculator/grammar_encoded_prec_parser.py examples/jsonpath/parser.py", cwd=scratch)
         rc, out = sh(f"/venv/bin/python {sdir}/demo.py", cwd=scratch, env=env)
         res["demo_with_change_exit"] = rc
         res["checks"] = {}
